@@ -434,6 +434,101 @@ func corrADTS(r *hx.Rng, n int, thorough bool) {
 	}
 }
 
+// ---------------------------------------------------------------- sample entry (correspondence)
+
+// buildEntry runs SetAACDescriptor on a fresh track and encodes the mp4a entry it added
+func buildEntry(ot byte, f int) (cls string, b []byte) {
+	var err error
+	p := hx.Try(func() {
+		init := mp4.CreateEmptyInit()
+		init.AddEmptyTrack(uint32(48000), "audio", "und")
+		trak := init.Moov.Trak
+		if err = trak.SetAACDescriptor(ot, f); err != nil {
+			return
+		}
+		var buf bytes.Buffer
+		if err = trak.Mdia.Minf.Stbl.Stsd.Mp4a.Encode(&buf); err != nil {
+			return
+		}
+		b = buf.Bytes()
+	})
+	if p != "" {
+		return "panic", nil
+	}
+	if err != nil {
+		return "err", nil
+	}
+	return "ok", b
+}
+
+func emitED(b []byte) {
+	var box mp4.Box
+	var err error
+	obs := ""
+	p := hx.Try(func() { box, err = mp4.DecodeBox(0, bytes.NewReader(hx.Exact(b))) })
+	switch {
+	case p != "":
+		obs = "panic"
+	case err != nil:
+		obs = "err"
+	default:
+		e, ok := box.(*mp4.AudioSampleEntryBox)
+		if !ok || e.Esds == nil || e.Esds.DecConfigDescriptor == nil || e.Esds.DecConfigDescriptor.DecSpecificInfo == nil {
+			obs = "other"
+		} else {
+			dc := e.Esds.DecConfigDescriptor.DecSpecificInfo.DecConfig
+			cls, a := decodeASC(dc)
+			obs = fmt.Sprintf("ok/%d/%d/%d/%d/%s/%s", e.DataReferenceIndex, e.ChannelCount, e.SampleSize, e.SampleRate, hx.Hex(dc), ascObs(cls, a))
+		}
+	}
+	fmt.Fprintf(out, "ED\t%s\t%s\t%s\n", nextID("ed"), hx.Hex(b), obs)
+}
+
+func corrEntry(r *hx.Rng, n int, thorough bool) {
+	var encs [][]byte
+	fs := append(append([]int{}, tableFreqs...), explicitFreqs(r, n/4)...)
+	fs = append(fs, -1, -48000, 1<<24, 1<<24+5, 1<<40+44100)
+	for _, f := range fs {
+		for _, ot := range []byte{2, 5, 29, 1, 0, 42} {
+			cls, b := buildEntry(ot, f)
+			h := "-"
+			if cls == "ok" {
+				h = hx.Hex(b)
+				encs = append(encs, b)
+			}
+			fmt.Fprintf(out, "EN\t%s\t%d\t%s\t%s\t%s\n", nextID("en"), ot, hx.HexI(int64(f)), cls, h)
+		}
+	}
+	for i, b := range encs {
+		emitED(b)
+		if i%5 == 0 {
+			for l := 0; l < len(b); l += 1 + i%3 {
+				emitED(b[:l])
+			}
+		}
+	}
+	// mutations that stay on (or fall just off) the modelled path: field bytes, size bytes, tags, the DecConfig
+	for i := 0; i < n*4; i++ {
+		b := append([]byte{}, encs[r.Intn(len(encs))]...)
+		switch r.Intn(6) {
+		case 0: // entry fields
+			b[8+r.Intn(28)] = byte(r.U64())
+		case 1: // DecConfig bytes and the trailing SLConfig
+			b[len(b)-1-r.Intn(8)] = byte(r.U64())
+		case 2: // any byte
+			b[r.Intn(len(b))] = byte(r.U64())
+		case 3: // size bytes / tags of boxes and descriptors
+			pos := []int{3, 39, 48, 49, 53, 54, 68, 69, len(b) - 3, len(b) - 2}[r.Intn(10)]
+			b[pos] = byte(int(b[pos]) + r.Range(-2, 2))
+		case 4: // trailing bytes after the entry
+			b = append(b, r.Bytes(r.Range(1, 9), nil)...)
+		default: // flags of the ES descriptor (optional fields) with bytes inserted
+			b[52] = byte(r.U64())
+		}
+		emitED(b)
+	}
+}
+
 // ---------------------------------------------------------------- search: the property itself
 
 var evals int
@@ -734,6 +829,9 @@ func main() {
 		}
 		if *part == "all" || *part == "adts" {
 			corrADTS(hx.NewRng(*seed*4+2), *n, thorough)
+		}
+		if *part == "all" || *part == "entry" {
+			corrEntry(hx.NewRng(*seed*4+3), *n, thorough)
 		}
 	case "search":
 		if *part == "all" || *part == "asc" {
